@@ -26,3 +26,20 @@ class Ctx:
         if self._cgbin is None:
             self._cgbin = CallGraph(self.bin)
         return self._cgbin
+
+    @property
+    def cgraw(self):
+        """Call graph over the functions as written (see Crate.raw_view)."""
+        if self.lib.raw_view() is self.lib:
+            return self.cg
+        if getattr(self, "_cgraw", None) is None:
+            self._cgraw = CallGraph(self.lib.raw_view())
+        return self._cgraw
+
+    @property
+    def cgbinraw(self):
+        if self.bin.raw_view() is self.bin:
+            return self.cgbin
+        if getattr(self, "_cgbinraw", None) is None:
+            self._cgbinraw = CallGraph(self.bin.raw_view())
+        return self._cgbinraw
